@@ -1,5 +1,6 @@
 mod c01;
 mod c05;
+mod c07;
 mod c10;
 mod c11;
 mod c12;
@@ -27,6 +28,7 @@ fn main() {
     match argv[1].as_str() {
         "c01" => c01::main(&args),
         "c05" => c05::main(&args),
+        "c07" => c07::main(&args),
         "c10" => c10::main(&args),
         "c12" => c12::main(&args),
         "c15" => c15::main(&args),
